@@ -10,6 +10,7 @@ import (
 	"time"
 
 	"github.com/ProtonMail/gluon/imap"
+	"github.com/ProtonMail/gluon/verifhook"
 
 	"verifharness/common"
 	"verifharness/imapc"
@@ -319,6 +320,9 @@ func runOps(burn, step int, ops []mstore.Op, nlits int) (*violation, error) {
 func runC04(ctx *common.Ctx) error {
 	res := ctx.Res
 	rng := ctx.Rng
+	if err := newLits(6).Validate(); err != nil {
+		return err
+	}
 	res.Rule = "wire histories of APPEND (remote ok/failing/size) / UID COPY / UID MOVE / expunge (biased to the highest UID) / CREATE / DELETE + re-CREATE / connector batches / UIDVALIDITY bump / restart on the same directories; UID, UIDNEXT, UIDVALIDITY, APPENDUID, COPYUID tracked per (name, uidvalidity, uid) -> literal; non-trivial = distinct histories in which a UID above an expunged highest UID, a re-created name or a restart was observed; plus direct runs of EpochUIDValidityGenerator.Generate against the model"
 	const nlits = 6
 	var lines []string
@@ -531,6 +535,32 @@ func runC04(ctx *common.Ctx) error {
 		}
 	}
 
+	// ---- 1c. announced UIDs must be found by the LIVE sessions (oracle only: the model has no session views) ----
+	nlive := ctx.Budget(10, 80)
+	for ci := 0; ci < nlive; ci++ {
+		id++
+		sc := liveScenario{Pre: rng.Range(0, 2), Foreign: []string{"connector", "append-unselected", "copy-unselected"}[rng.Pick(3)],
+			Hold: ci%3 != 2, Observer: rng.Chance(0.6), Own: rng.Range(1, 2), ForeignN: rng.Range(1, 2)}
+		if ci == 0 {
+			sc = liveScenario{Pre: 1, Foreign: "append-unselected", Hold: true, Observer: false, Own: 1, ForeignN: 1}
+		}
+		if ci == 1 {
+			sc = liveScenario{Pre: 0, Foreign: "connector", Hold: true, Observer: true, Own: 1, ForeignN: 2}
+		}
+		cs := &c04Case{ID: id}
+		ctx.Current("live "+sc.String(), cs)
+		detail, err := runLive(sc, nlits)
+		if err != nil {
+			return fmt.Errorf("live %s: %w", sc, err)
+		}
+		res.Evaluations++
+		res.Count("live:" + sc.Foreign)
+		res.Nontrivial("live " + sc.String())
+		if detail != "" {
+			res.Fail("announced-uid-not-found-in-live-session ["+sc.String()+"]", detail, sc)
+		}
+	}
+
 	// ---- 2. random histories, generator advanced beyond the clock (values deterministic; compared with the model) ----
 	for ci := 0; ci < ncases; ci++ {
 		id++
@@ -656,4 +686,218 @@ func contains(xs []int, x int) bool {
 		}
 	}
 	return false
+}
+
+// ---- live sessions ----
+
+// liveScenario: session S has mailbox m selected (Pre messages in it). Optionally every queued state update is held
+// back. A writer without a view of m adds ForeignN messages (connector batch / APPEND or COPY by a session that has not
+// selected m), then S itself APPENDs Own messages (applied to its own view at once). The held updates are released.
+// Every UID announced (APPENDUID / COPYUID) or assigned (connector) must then be found, with the right bytes and in
+// ascending order, by S and by a second live session that has m selected (after NOOP), exactly as in a fresh view.
+type liveScenario struct {
+	Pre      int    `json:"pre"`
+	Foreign  string `json:"foreign"`
+	ForeignN int    `json:"foreign_n"`
+	Own      int    `json:"own"`
+	Hold     bool   `json:"hold"`
+	Observer bool   `json:"observer"`
+}
+
+func (sc liveScenario) String() string {
+	return fmt.Sprintf("pre=%d; S selects m; hold=%v; %s adds %d; S appends %d; release; observer=%v", sc.Pre, sc.Hold, sc.Foreign, sc.ForeignN, sc.Own, sc.Observer)
+}
+
+func runLive(sc liveScenario, nlits int) (string, error) {
+	verifhook.Reset()
+	defer verifhook.Reset()
+	lits := newLits(nlits)
+	w, err := mstore.NewWorld(mstore.Config{Burn: 20}, lits)
+	if err != nil {
+		return "", err
+	}
+	defer w.Close()
+	pre := []mstore.Op{{Kind: "create", Name: "m", RemoteOK: true}, {Kind: "create", Name: "o", RemoteOK: true},
+		{Kind: "append", Name: "o", Lit: 5, Remote: "ok"}, {Kind: "append", Name: "o", Lit: 4, Remote: "ok"}}
+	for i := 0; i < sc.Pre; i++ {
+		pre = append(pre, mstore.Op{Kind: "append", Name: "m", Lit: i, Remote: "ok"})
+	}
+	if _, _, err := mstore.Replay(w, pre, func(int, mstore.Op, mstore.Obs, mstore.Dump, mstore.Dump) bool { return true }); err != nil {
+		return "", err
+	}
+	S, B := w.Sess[0], w.Sess[1]
+	must := func(c *imapc.Client, line string) error {
+		r, err := c.Cmd(line)
+		if err != nil || r.Status != "OK" {
+			return fmt.Errorf("%s: %v %s", line, err, r.Text)
+		}
+		return nil
+	}
+	if err := must(S, "SELECT m"); err != nil {
+		return "", err
+	}
+	var T *imapc.Client
+	if sc.Observer {
+		T, err = w.S.Login()
+		if err != nil {
+			return "", err
+		}
+		defer T.Close()
+		if err := must(T, "SELECT m"); err != nil {
+			return "", err
+		}
+	}
+	if sc.Foreign == "copy-unselected" {
+		if err := must(B, "SELECT o"); err != nil {
+			return "", err
+		}
+	}
+	if sc.Hold {
+		verifhook.SetHold(func(int64) bool { return true })
+	}
+	announced := map[int]int{} // uid -> literal
+	// the foreign writer
+	switch sc.Foreign {
+	case "connector":
+		var b []mstore.BatchMsg
+		for i := 0; i < sc.ForeignN; i++ {
+			b = append(b, mstore.BatchMsg{Lit: 2 + i, Mboxes: []string{"m"}})
+		}
+		ob, err := w.Do(mstore.Op{Kind: "connmsgs", Batch: b})
+		if err != nil || ob.Class != "ok" {
+			return "", fmt.Errorf("connector batch: %v %s", err, ob.Text)
+		}
+		for i := 0; i < sc.ForeignN; i++ {
+			announced[sc.Pre+1+i] = 2 + i // the only writer so far: next UIDs (checked against the fresh view below)
+		}
+	case "append-unselected":
+		for i := 0; i < sc.ForeignN; i++ {
+			r, err := B.Append("m", "", lits.Bytes[2+i])
+			if err != nil || r.Status != "OK" {
+				return "", fmt.Errorf("foreign append: %v %s", err, r.Text)
+			}
+			var v, u int
+			fmt.Sscanf(afterTag(r.Text, "APPENDUID"), "%d %d", &v, &u)
+			announced[u] = 2 + i
+		}
+	case "copy-unselected":
+		set := "1"
+		if sc.ForeignN > 1 {
+			set = "1:2"
+		}
+		r, err := B.Cmd("UID COPY " + set + " m")
+		if err != nil || r.Status != "OK" {
+			return "", fmt.Errorf("foreign copy: %v %s", err, r.Text)
+		}
+		pairs, _, _ := mstore.CopyPairs(r)
+		for _, p := range pairs {
+			announced[p[1]] = map[int]int{1: 5, 2: 4}[p[0]]
+		}
+	}
+	// S's own appends
+	for i := 0; i < sc.Own; i++ {
+		r, err := S.Append("m", "", lits.Bytes[i%2])
+		if err != nil || r.Status != "OK" {
+			return "", fmt.Errorf("own append: %v %s", err, r.Text)
+		}
+		var v, u int
+		fmt.Sscanf(afterTag(r.Text, "APPENDUID"), "%d %d", &v, &u)
+		announced[u] = i % 2
+	}
+	// deliver what was held back
+	if sc.Hold {
+		verifhook.SetHold(nil)
+		max := verifhook.CurrentStateID()
+		for sid := int64(1); sid <= max; sid++ {
+			verifhook.Release(sid, 1<<30)
+		}
+		for sid := int64(1); sid <= max; sid++ {
+			if !verifhook.WaitQuiet(sid, 30*time.Second) {
+				return "", fmt.Errorf("state %d did not become quiet", sid)
+			}
+		}
+	}
+	fresh, err := w.DumpAll()
+	if err != nil {
+		if what, ok := mstore.AsProbe(err); ok {
+			return "fresh view unreadable: " + what, nil
+		}
+		return "", err
+	}
+	fm := fresh.Get("m")
+	want := map[int]int{}
+	for _, r := range fm.Rows {
+		want[r.UID] = r.Lit
+	}
+	for u, l := range announced {
+		if got, ok := want[u]; !ok || got != l {
+			return fmt.Sprintf("fresh view: announced UID %d (literal %d) not found (have %v)", u, l, want), nil
+		}
+	}
+	view := func(c *imapc.Client, who string) string {
+		// a few NOOPs: every delivered update is announced at the latest by the second one
+		for i := 0; i < 2; i++ {
+			r, err := c.Cmd("NOOP")
+			if err != nil || r.Status != "OK" {
+				return fmt.Sprintf("%s: NOOP answered %s %s (%v)", who, r.Status, r.Text, err)
+			}
+		}
+		r, err := c.Cmd("UID FETCH 1:* (UID BODY.PEEK[])")
+		if err != nil || r.Status != "OK" {
+			return fmt.Sprintf("%s: UID FETCH 1:* answered %s %s (%v)", who, r.Status, r.Text, err)
+		}
+		got := map[int]int{}
+		bySeq := map[int]int{}
+		var seqs []int
+		for _, e := range imapc.Evs(r) {
+			if e.Kind != "FETCH" {
+				continue
+			}
+			if _, dup := bySeq[e.N]; dup {
+				return fmt.Sprintf("%s: sequence number %d reported twice", who, e.N)
+			}
+			bySeq[e.N] = e.UID
+			seqs = append(seqs, e.N)
+			l := -1
+			if len(e.Lits) > 0 {
+				l = lits.Find(e.Lits[0])
+			}
+			got[e.UID] = l
+		}
+		// the responses may come in any order; the UIDs must ascend with the sequence numbers
+		sort.Ints(seqs)
+		last := 0
+		for _, n := range seqs {
+			if bySeq[n] <= last {
+				return fmt.Sprintf("%s: UIDs do not ascend with the sequence numbers (seq %d has UID %d, the one before UID %d)", who, n, bySeq[n], last)
+			}
+			last = bySeq[n]
+		}
+		for u, l := range want {
+			if g, ok := got[u]; !ok || g != l {
+				return fmt.Sprintf("%s: UID %d (literal %d; announced: %v) not found by the live session (it sees %v)", who, u, l, announced[u] == l, got)
+			}
+		}
+		if len(got) != len(want) {
+			return fmt.Sprintf("%s: live session sees %v, fresh view %v", who, got, want)
+		}
+		return ""
+	}
+	if d := view(S, "issuing session"); d != "" {
+		return d, nil
+	}
+	if T != nil {
+		if d := view(T, "second session with the mailbox selected"); d != "" {
+			return d, nil
+		}
+	}
+	return "", nil
+}
+
+func afterTag(text, tag string) string {
+	i := strings.Index(text, tag+" ")
+	if i < 0 {
+		return ""
+	}
+	return strings.TrimRight(text[i+len(tag)+1:], "] ")
 }
